@@ -14,9 +14,9 @@ MUTS = [
  ("C01-remove-seeding-fix", "proxy/proxy_streams.go",
   "r.ackByTarget[targetShardID] = tasks[0].SourceTaskId", "_ = tasks", "C01"),
  ("C03-drop-monotone-guard", "proxy/proxy_streams.go",
-  "if !first && min >= lastSentMin && lastExclusiveHighOriginal > 0 {", "if !first && lastExclusiveHighOriginal > 0 {", "C03"),
+  "if !first && min >= lastSentMin && lastExclusiveHighOriginal > 0 {", "if _ = lastSentMin; !first && lastExclusiveHighOriginal > 0 {", "C03"),
  ("C03-drop-clamp", "proxy/proxy_streams.go",
-  "if min > lastExclusiveHighOriginal {", "if false && min > lastExclusiveHighOriginal {", "C03"),
+  "if min > lastExclusiveHighOriginal {", "if false && min > lastExclusiveHighOriginal {", "C04"),
  ("C05-aggregate-exclusive", "proxy/proxy_streams.go",
   "count64 := watermark - b.startProxyID + 1", "count64 := watermark - b.startProxyID", "C05"),
  ("C05-grow-keeps-head", "proxy/proxy_streams.go",
